@@ -11,7 +11,7 @@ REG = {
     "C01": {
         "modules": ["VProofs.Props.C01", "VProofs.Props.Pandas"],
         "theorems": thms("C01", ["C01_detect", "C01_pandas", "C01_pandas_model"]) + ["V.Pd.built_typeset", "V.PandasProps.C01_pandas_built"],
-        "runners": ["pandas", "engine", "numpy", "list"],
+        "runners": ["pandas", "engine", "numpy", "list", "algebra"],
         "relevant": ["contains", "detect"],
     },
     "C02": {
@@ -64,7 +64,7 @@ REG = {
         "modules": ["VProofs.Props.C06"],
         "theorems": thms("C06", ["C06_shape", "C06_lossless_float_integer", "C06_lossless_complex_float",
                                  "C06_lossless_datetime_date", "oks_length", "C06_shape_infer", "C06_nulls_step"]) + ["V.Pd.nulls_pandas"],
-        "runners": ["pandas", "frame", "family"],
+        "runners": ["pandas", "frame", "family", "numpy", "list"],
         "relevant": ["xform", "infer-data", "guard", "relation-missing"],
     },
     "C07": {
@@ -88,7 +88,7 @@ REG = {
         "modules": ["VProofs.Props.C10"],
         "theorems": thms("C10", ["C10_frame", "C10_history", "stringIsGeometry_restores", "suppressWarnings_id",
                                  "C10_witness_F01"]),
-        "runners": ["history", "engine", "list"],
+        "runners": ["history", "engine", "list", "algebra"],
         "partial": "the model cannot exhibit global state it does not name, nor hash-seed / process dependence: observed by the History runner",
     },
     "C11": {
